@@ -97,7 +97,9 @@ struct MapModel {
     void key(const State& s, std::string& k) const { for (auto& p : s) { k.append((const char*)&p.first, sizeof(long)); k.append((const char*)&p.second, sizeof(long)); } }
     static State::iterator find(State& s, long key) { for (auto it = s.begin(); it != s.end(); ++it) if (it->first == key) return it; return s.end(); }
     static void put(State& s, long key, long inst) { auto it = s.begin(); while (it != s.end() && it->first < key) ++it; s.insert(it, std::make_pair(key, inst)); }
-    bool inst_ok(long seen, long model) const { return !check_instance || seen < 0 || seen == model; }
+    // seen < 0: the operation did not report an instance; seen == 0: a key-value container showed the default-constructed
+    // mapped value of an element whose creating functor has not run yet (documented: functors run after linking, unsynchronised)
+    bool inst_ok(long seen, long model) const { return !check_instance || seen <= 0 || seen == model; }
     bool step(State& s, const Event& e) const {
         auto it = find(s, e.a); bool present = it != s.end();
         switch (e.kind) {
